@@ -120,15 +120,15 @@ var props = map[string]propCfg{
 	"C20": {Focus: "C20", Arms: []string{"router", "xport", "prefetch"}, Race: true, Probes: []string{"content_checked", "c06_reply_checked"}},
 	"C15": {Focus: "C15", Arms: []string{"unit", "e2e"}, Probes: []string{"c15_decisions_compared", "c15_e2e_refused", "c15_e2e_admitted"}},
 	"C16": {Focus: "C16", Arms: []string{"clean"}, Probes: []string{"c16_tc_seen", "c16_tcp_outcome_returned", "c16_no_tc"}},
-	"C07": {Focus: "C07", Arms: []string{"ample", "prefetch", "tiny"}, Probes: []string{"cache_hit", "c07_group_checked", "c07_compared_with_first_relay", "c07_hit_expected"}},
-	"C08": {Focus: "C08", Arms: []string{"clean"}, Probes: []string{"cache_hit", "c08_ttl_checked", "cache_hit_last_quarter"}},
+	"C07": {Focus: "C07", Arms: []string{"ample", "prefetch", "tiny", "redis"}, Probes: []string{"cache_hit", "c07_group_checked", "c07_compared_with_first_relay", "c07_hit_expected"}},
+	"C08": {Focus: "C08", Arms: []string{"clean", "clean", "redis"}, Probes: []string{"cache_hit", "c08_ttl_checked", "cache_hit_last_quarter"}},
 	"C17": {Focus: "C17", Arms: []string{"addr", "auth", "mtls"}, Probes: []string{"c17a_case_checked", "c17b_case_checked", "c17_mtls_checked", "c17_mtls_unacceptable_client"}},
 	"C18": {Focus: "C18", Arms: []string{"xclose", "rclose", "startfault", "xclose"}, Probes: []string{"c18_upstream_close_checked", "c18_router_close_checked", "c18_call_after_close", "c18_call_inflight_at_close"}},
 	"C19": {Focus: "C19", Arms: []string{"clean", "clean", "prefetch"}, Probes: []string{"cache_hit", "cache_hit_last_quarter", "c07_hit_expected"}},
 	"C09": {Focus: "C09", Arms: []string{"clean"}, Probes: []string{"c09_truncated", "c09_fits"}},
 	"C10": {Focus: "C10", Arms: []string{"clean", "startfault", "clean", "prefetch"}, Probes: []string{"c10_forward_checked", "c10_reject", "c10_refused"}},
 	"C11": {Focus: "C11", Arms: []string{"clean"}, Probes: []string{"c10_forward_checked", "c11_matched", "c11_unmatched"}},
-	"C12": {Focus: "C12", Arms: []string{"clean"}, Probes: []string{"c12_client_opt_checked", "c12_upstream_opt_checked", "c12_ecs_checked"}},
+	"C12": {Focus: "C12", Arms: []string{"clean", "clean", "overload"}, Probes: []string{"c12_client_opt_checked", "c12_upstream_opt_checked", "c12_ecs_checked"}},
 	"C13": {Focus: "C13", Arms: []string{"clean", "overload"}, Probes: []string{"c13_conn_checked", "c13_pipelined", "c13_overload"}},
 }
 
